@@ -295,7 +295,8 @@ def validate(cm, msg):
         if "nameplate" not in msg:
             return ("error", "claim-without-nameplate", False)
         if cm.claimed:
-            return ("error", "second-claim", cm.claim_refused)
+            # (C17 counts commands, not successes: a claim after a refused claim is a second claim)
+            return ("error", "second-claim", False)
         return ("ok", "claim", msg["nameplate"])
     if t == "release":
         if cm.released:
